@@ -220,9 +220,10 @@ func c11Table(name string, server bool) *jsonrpc.Errors {
 var c11TableNames = []string{"same", "client-only", "server-only", "disjoint", "swapped", "none"}
 
 type ErrAPI struct {
-	mu   sync.Mutex
-	next error
-	runs int
+	mu    sync.Mutex
+	next  error
+	runs  int
+	byKey map[string]error
 }
 
 func (a *ErrAPI) E(ctx context.Context) error {
@@ -238,9 +239,23 @@ func (a *ErrAPI) VE(ctx context.Context) (int, error) {
 	return 7, a.next
 }
 
+// EK / VEK return the error deposited under key: concurrent callers each get their own.
+func (a *ErrAPI) EK(ctx context.Context, key string) error {
+	a.mu.Lock()
+	defer a.mu.Unlock()
+	return a.byKey[key]
+}
+func (a *ErrAPI) VEK(ctx context.Context, key string) (int, error) {
+	a.mu.Lock()
+	defer a.mu.Unlock()
+	return 7, a.byKey[key]
+}
+
 type c11Client struct {
-	E  func(ctx context.Context) error
-	VE func(ctx context.Context) (int, error)
+	E   func(ctx context.Context) error
+	VE  func(ctx context.Context) (int, error)
+	EK  func(ctx context.Context, key string) error
+	VEK func(ctx context.Context, key string) (int, error)
 }
 
 type c11Endpoint struct {
@@ -397,6 +412,11 @@ func (e *c11Env) run(c c11Case) *Violation {
 	if ep.api.runs != 1 {
 		return violf("handler-runs", "handler ran %d times", ep.api.runs)
 	}
+	return c11Judge(c, herr, got, val)
+}
+
+// c11Judge compares what the caller got with what the handler returned.
+func c11Judge(c c11Case, herr, got error, val int) *Violation {
 	if herr == nil {
 		if got != nil {
 			return violf("spurious-error", "handler returned nil, caller got %T %v", got, got)
@@ -503,6 +523,76 @@ func (e *c11Env) run(c c11Case) *Violation {
 	return nil
 }
 
+// c11Conc: several callers use the same proxy function at the same time, each provoking a different error (or none).
+type c11Conc struct {
+	Table     string    `json:"table"`
+	Transport string    `json:"transport"`
+	Shape     string    `json:"shape"`
+	Rounds    int       `json:"rounds"`
+	Items     []c11Case `json:"items"` // kind/msg/... per caller; table, transport and shape are taken from the enclosing case
+}
+
+func (e *c11Env) runConc(c c11Conc) *Violation {
+	e.mu.Lock()
+	defer e.mu.Unlock()
+	ep := e.eps[c.Table]
+	if ep == nil || ep.clients[c.Transport] == nil {
+		return nil
+	}
+	cl := ep.clients[c.Transport]
+	herrs := make([]error, len(c.Items))
+	ep.api.mu.Lock()
+	ep.api.byKey = map[string]error{}
+	for i := range c.Items {
+		c.Items[i].Table, c.Items[i].Transport, c.Items[i].Shape = c.Table, c.Transport, c.Shape
+		herrs[i] = c.Items[i].build()
+		ep.api.byKey[fmt.Sprint("k", i)] = herrs[i]
+	}
+	ep.api.mu.Unlock()
+	var mu sync.Mutex
+	var first *Violation
+	var wg sync.WaitGroup
+	start := make(chan struct{})
+	for i := range c.Items {
+		wg.Add(1)
+		go func(i int) {
+			defer wg.Done()
+			<-start
+			for r := 0; r < c.Rounds; r++ {
+				var got error
+				val := 0
+				var pan interface{}
+				func() {
+					defer func() { pan = recover() }()
+					if c.Shape == "VE" {
+						val, got = cl.VEK(context.Background(), fmt.Sprint("k", i))
+					} else {
+						got = cl.EK(context.Background(), fmt.Sprint("k", i))
+					}
+				}()
+				var v *Violation
+				if pan != nil {
+					v = violf("client-panic", "client panicked converting the error: %v", pan)
+				} else {
+					v = c11Judge(c.Items[i], herrs[i], got, val)
+				}
+				if v != nil {
+					v.Msg = fmt.Sprintf("caller %d of %d concurrent callers of one client function (round %d, own error kind %s %q): %s", i, len(c.Items), r, c.Items[i].Kind, c.Items[i].Msg, v.Msg)
+					mu.Lock()
+					if first == nil {
+						first = v
+					}
+					mu.Unlock()
+					return
+				}
+			}
+		}(i)
+	}
+	close(start)
+	wg.Wait()
+	return first
+}
+
 func isNilInside(err error) bool {
 	v := reflect.ValueOf(err)
 	return v.Kind() == reflect.Ptr && v.IsNil()
@@ -557,12 +647,12 @@ func c11NT(c c11Case) (bool, []string) {
 	return nt, cl
 }
 
-const c11Rule = "error value kinds {nil, plain value, unregistered pointer to plain, pointer-plain, marshalable pointer, marshalable value-registered, codec, failing unmarshal, failing codec, stdlib, wrapped} with generated messages (valid UTF-8 incl. empty/escape-heavy) and fields x registration tables {same, client-only, server-only, disjoint codes, swapped types, none} x {error, (value,error)} x {ws, http, custom}; complete grid of kind x table x shape x transport plus rapid-generated content. Non-trivial = a non-nil error with a registration table in play or a non-ASCII/empty message; distinct by descriptor hash"
+const c11Rule = "error value kinds {nil, plain value, unregistered pointer to plain, pointer-plain, marshalable pointer, marshalable value-registered, codec, failing unmarshal, failing codec, stdlib, wrapped} with generated messages (valid UTF-8 incl. empty/escape-heavy) and fields x registration tables {same, client-only, server-only, disjoint codes, swapped types, none} x {error, (value,error)} x {ws, http, custom}; complete grid of kind x table x shape x transport plus rapid-generated content; 2-8 concurrent callers of one client function, each provoking its own error kind (or none) for 5-400 rounds. Non-trivial = a non-nil error with a registration table in play or a non-ASCII/empty message; distinct by descriptor hash"
 
 func TestC11(t *testing.T) {
 	rec := NewRec("C11", c11Rule)
 	defer rec.Finish(t)
-	rec.RequireClass("table_same", "table_disjoint", "table_swapped", "table_client-only", "table_server-only", "kind_meta", "kind_codec", "kind_failmeta", "kind_failcodec", "empty_message", "shape_VE")
+	rec.RequireClass("concurrent_callers", "table_same", "table_disjoint", "table_swapped", "table_client-only", "table_server-only", "kind_meta", "kind_codec", "kind_failmeta", "kind_failcodec", "empty_message", "shape_VE")
 	env, err := newC11Env()
 	if err != nil {
 		t.Fatalf("env: %v", err)
@@ -585,7 +675,30 @@ func TestC11(t *testing.T) {
 		}
 		rec.Exhaustive(false)
 	})
+	t.Run("concurrent", func(t *testing.T) {
+		for _, tr := range c01Transports {
+			for _, sh := range []string{"E", "VE"} {
+				c := c11Conc{Table: "same", Transport: tr, Shape: sh, Rounds: scale(60, 400)}
+				for i, k := range []string{"nil", "plain", "meta", "codec", "nil", "stdlib", "ptrplain", "both"} {
+					c.Items = append(c.Items, c11Case{Kind: k, Msg: fmt.Sprintf("m%d-%s", i, k), Num: int64(i), Data: json.RawMessage(`{"k":[1,"x"]}`)})
+				}
+				rec.Run(t, c, true, []string{"concurrent_callers", "tr_" + tr, "shape_" + sh}, func() *Violation { return env.runConc(c) })
+			}
+		}
+	})
 	rec.Rapid(t, "rapid", func(rt *rapid.T) {
+		if rapid.IntRange(0, 19).Draw(rt, "conc") == 0 {
+			c := c11Conc{Table: rapid.SampledFrom(c11TableNames).Draw(rt, "table"), Transport: rapid.SampledFrom(c01Transports).Draw(rt, "transport"),
+				Shape: rapid.SampledFrom([]string{"E", "VE"}).Draw(rt, "shape"), Rounds: rapid.IntRange(5, 40).Draw(rt, "rounds")}
+			n := rapid.IntRange(2, 8).Draw(rt, "ncallers")
+			for i := 0; i < n; i++ {
+				it := genC11(rt)
+				it.Msg = fmt.Sprintf("c%d-%s", i, it.Msg)
+				c.Items = append(c.Items, it)
+			}
+			rec.Run(rt, c, true, []string{"concurrent_callers", "tr_" + c.Transport, "shape_" + c.Shape}, func() *Violation { return env.runConc(c) })
+			return
+		}
 		c := genC11(rt)
 		nt, cl := c11NT(c)
 		rec.Run(rt, c, nt, cl, func() *Violation { return env.run(c) })
@@ -599,6 +712,15 @@ func TestC11Replay(t *testing.T) {
 	}
 	defer env.Close()
 	Replay(t, "C11", 1, func(raw json.RawMessage) *Violation {
+		var probe map[string]json.RawMessage
+		_ = json.Unmarshal(raw, &probe)
+		if _, ok := probe["items"]; ok {
+			var c c11Conc
+			if err := json.Unmarshal(raw, &c); err != nil {
+				return nil
+			}
+			return env.runConc(c)
+		}
 		var c c11Case
 		if err := json.Unmarshal(raw, &c); err != nil {
 			return nil
